@@ -16,8 +16,16 @@ def rule_R4(ctx):
     ctx.begin("R4", floor=5, what="fork priority in matcher and emitter")
     prog = ctx.prog
     f = prog.func("re_rec", file="regex.c")
-    cfg = f.cfg
     rec = list(f.calls("re_rec"))
+    if not rec:
+        # the fork may live in a helper that calls re_rec back: the same obligations hold there
+        for c in f.calls():
+            g = prog.resolve(f, c["fn"]) if c.get("fn") else None
+            if g is not None and g.file == f.file and list(g.calls("re_rec")):
+                f = g
+                rec = list(f.calls("re_rec"))
+                break
+    cfg = f.cfg
     if not rec:
         raise AnalysisBroken("re_rec not recursive")
     rec = rec[0]
@@ -306,52 +314,104 @@ def rule_R6(ctx):
 # L
 
 
+def _is_plain_literal(prog, pat):
+    """does the regex parser read the whole pattern as one literal atom?  (abstract evaluation)"""
+    from .r import _parse_probe
+    tree, rest, err = _parse_probe(prog, pat)
+    if not isinstance(tree, dict) or err or rest != len(pat):
+        return False
+    if isinstance(tree.get("c1"), dict) or isinstance(tree.get("c2"), dict):
+        return False
+    ra = tree.get("ra")
+    if not isinstance(ra, dict) or ra.get("ra") != 0 or (tree.get("mincnt"), tree.get("maxcnt")) != (1, 1):
+        return False
+    buf = ra.get("s")
+    got = []
+    i = 0
+    while isinstance(buf, dict) and isinstance(buf.get(i), int) and buf[i] != 0:
+        got.append(buf[i] & 0xff)
+        i += 1
+    return bytes(got) == pat
+
+
+def _classified_literal(prog, pat):
+    """does rstr_make treat the pattern as a plain substring search?  (abstract evaluation with
+    the allocation and the set constructor replaced by models)"""
+    f = prog.func("rstr_make", file="rstr.c")
+    rec = prog.record("rstr")
+
+    def h_memset(ip, fn, e, args, env):
+        if isinstance(args[0], dict) and args[1] == 0:
+            for fl in rec["fields"]:
+                args[0].setdefault(fl["name"], 0)
+        return None
+
+    def h_memcpy(ip, fn, e, args, env):
+        d, s_, n_ = args[0], args[1], args[2]
+        if isinstance(d, dict) and isinstance(s_, Ptr) and isinstance(n_, int):
+            for i in range(n_):
+                d[i] = s_.read(i)
+        return None
+    made = []
+
+    def h_rset(ip, fn, e, args, env):
+        made.append(1)
+        return {"set": 1}
+    ip = Interp(prog, hooks={"malloc": lambda *a: {}, "memset": h_memset, "memcpy": h_memcpy,
+                             "rset_make": h_rset, "free": lambda *a: None})
+    r = ip.call(f, [Ptr(tuple(pat) + (0,)), 0])
+    if not isinstance(r, dict):
+        return None
+    return not made and not isinstance(r.get("rs"), dict)
+
+
 def rule_L1(ctx):
+    """A pattern with a regex operator is never searched as plain text.  Both sides are
+    evaluated abstractly: a byte is an operator when the parser does not read `a<byte>b` as one
+    literal atom; the classifier (rstr_make) must then refuse `a<byte>b`, `<byte>ab` and
+    `ab<byte>` as a literal, except for the anchors it strips itself (^ first, $ last, \\< \\>)."""
     ctx.begin("L1", floor=1, what="metacharacter agreement")
     prog = ctx.prog
-    P = set()
-    rr = prog.func("ratom_read", file="regex.c")
-    for b in rr.cfg.blocks.values():
-        if b.label and b.label["kind"] == "case" and "v" in b.label:
-            P.add(b.label["v"])
-    for c in rr.calls("strchr"):
-        a = strip_casts(c["args"][0])
-        if a["k"] == "str":
-            P.update(ord(x) for x in a["v"])
-    for fn in ("rnode_atom", "rnode_parse", "rnode_grp", "rnode_seq"):
-        if not prog.has_func(fn, file="regex.c"):
-            continue
-        f = prog.func(fn, file="regex.c")
-        for n in f.walk():
-            if n["k"] == "bin" and n["op"] in ("==", "!=") and cval(n["r"]) is not None and \
-                    "pat" in key(n["l"]) and n["l"]["k"] in ("sub", "un"):
-                v = cval(n["r"])
-                if 32 < v < 127 and not chr(v).isdigit():
-                    P.add(v)
-    P.discard(0)
-    # bytes special only inside {} or after a backslash are not pattern-level operators
-    P -= {ord(","), ord("}"), ord("<"), ord(">"), ord("]")}
-    rs = prog.func("rstr_simple", file="rstr.c")
-    Q = set()
-    loop_lits = []
-    for c in rs.calls("strchr"):
-        a = strip_casts(c["args"][0])
-        if a["k"] == "str" and enclosing(rs, c["id"], ("while", "for")):
-            loop_lits.append(a["v"])
-            Q.update(ord(x) for x in a["v"])
-    if not loop_lits:
-        raise AnalysisBroken("rstr_simple: scan loop with strchr(literal, ...) not found")
-    if len(P) < 10:
-        raise AnalysisBroken("parser metacharacter set too small: %s" % sorted(chr(c) for c in P))
-    missing = sorted(chr(c) for c in P - Q)
+    ops = []
+    try:
+        for c in range(0x21, 0x7f):
+            if chr(c).isalnum():
+                continue
+            if not _is_plain_literal(prog, bytes([0x61, c, 0x62])):
+                ops.append(c)
+    except (Unsupported, OverRead) as e:
+        raise AnalysisBroken("regex parser not evaluable: %s" % e)
+    if len(ops) < 8:
+        raise AnalysisBroken("parser operator set too small: %s" % "".join(chr(c) for c in ops))
+    missing = []
+    n_eval = 0
+    try:
+        for c in ops:
+            forms = [bytes([0x61, c, 0x62])]
+            if chr(c) not in "^\\":
+                forms.append(bytes([c, 0x61, 0x62]))
+            if chr(c) not in "$":
+                forms.append(bytes([0x61, 0x62, c]))
+            for pat in forms:
+                n_eval += 1
+                if _is_plain_literal(prog, pat):
+                    continue                      # not an operator in this position
+                v = _classified_literal(prog, pat)
+                if v is None:
+                    continue                      # rejected outright
+                if v:
+                    missing.append((chr(c), pat))
+    except (Unsupported, OverRead) as e:
+        raise AnalysisBroken("rstr_make not evaluable: %s" % e)
+    f = prog.func("rstr_make", file="rstr.c")
     if missing:
-        ctx.violation("rstr_simple", "operators stop the literal scan",
-                      "the regex parser treats %s as operators but the literal classifier's stop "
-                      "set %r lacks them: such a pattern is searched as plain text" % (
-                          missing, loop_lits[0]), rs.loc(rs.body))
+        ctx.violation("rstr_make", "operators stop the literal scan",
+                      "the regex parser treats %s as operators but the literal classifier accepts %s as "
+                      "plain text: such a pattern is searched as a literal" % (
+                          sorted({m[0] for m in missing}), [m[1].decode() for m in missing[:4]]), f.loc(f.body))
     else:
-        ctx.ok("rstr_simple", "every parser metacharacter %s stops the literal scan" % "".join(
-            sorted(chr(c) for c in P)))
+        ctx.ok("rstr_make", "every parser operator %s makes the classifier hand the pattern to the regex "
+               "engine (%d forms evaluated)" % ("".join(chr(c) for c in ops), n_eval))
 
 
 def _grps_fill(f, n_name, g_name):
@@ -1139,7 +1199,11 @@ def rule_L5(ctx):
                     grps = {}
                     try:
                         ret = Interp(prog).call(f, [rs, Ptr(line), 1, grps, 0])
-                    except (Unsupported, OverRead) as e:
+                    except OverRead as e:
+                        if bad is None:
+                            bad = (lit, line, wbeg, wend, "OVERREAD %s" % e, want)
+                        continue
+                    except Unsupported as e:
                         raise AnalysisBroken("rstr_find not evaluable: %s" % e)
                     n_eval += 1
                     got = grps.get(0, -1) if (ret is not None and ret >= 0) else -1
@@ -1206,18 +1270,20 @@ def rule_L5(ctx):
             ctx.ok("rstr_find", "resumed at an interior offset with the left-context flag, both matchers "
                    "agree with the whole-line verdict on %d (literal, anchors, line, offset) cases" % n_prev)
     # ignore-case: the fast path's byte comparison folds exactly what the engine folds
+    # the ignore-case flag of the engine: the bit under which the literal `a` accepts `A`
     icase_bit = None
-    for n in am.walk():
-        if n["k"] == "bin" and n["op"] == "&" and strip_casts(n["l"])["k"] == "member" and \
-                strip_casts(n["l"])["field"] == "flg" and cval(n["r"]) is not None:
-            # the flag tested together with isupper/tolower
-            for par in am.ancestors(n["id"]):
-                if par["k"] != "bin" or par["op"] != "&&":
-                    break
-                if any(is_call(c, ("isupper", "tolower", "islower", "toupper")) for c in calls_in(par)):
-                    icase_bit = cval(n["r"])
+    for bit in (1, 2, 4, 8, 16, 32, 64, 128):
+        line = (0x41, 0x0a, 0)
+        sp = Ptr(line)
+        st = {"s": Ptr(line, 0, sp.log), "o": sp, "flg": bit, "pc": 0, "dep": 0}
+        try:
+            if Interp(prog).call(am, [{"ra": 0, "s": Ptr((0x61, 0))}, st]) == 0:
+                icase_bit = bit
+                break
+        except (Unsupported, OverRead):
+            continue
     if icase_bit is None:
-        raise AnalysisBroken("ratom_match: ignore-case flag test not found")
+        raise AnalysisBroken("ratom_match: no flag bit makes the literal `a` accept `A`")
     fold_bad = None
     n_fold = 0
     for a in range(1, 256):
@@ -1256,7 +1322,13 @@ def rule_L5(ctx):
     if bad:
         lit, line, wbeg, wend, got, want = bad
         sh = lambda b: "".join(chr(x) if 32 <= x < 127 else "\\x%02x" % x for x in b)
-        ctx.violation("rstr_find", "word anchors agree with the regex engine",
+        if isinstance(got, str):
+            ctx.violation("rstr_find", "word anchors agree with the regex engine",
+                          "pattern %s%s%s on the line \"%s\": the literal matcher reads outside the line (%s)" % (
+                              "\\<" if wbeg else "", sh(lit), "\\>" if wend else "", sh(line[:-2]), got[9:]),
+                          f.loc(f.body))
+        else:
+          ctx.violation("rstr_find", "word anchors agree with the regex engine",
                       "pattern %s%s%s on the line \"%s\": the literal matcher %s but the engine's "
                       "\\< / \\> atoms %s" % (
                           "\\<" if wbeg else "", sh(lit), "\\>" if wend else "", sh(line[:-2]),
